@@ -51,7 +51,7 @@ theorem C01_search_partition (errors : List Int) (warm maxP : Nat) (prc : PrcPar
   search_space' errors warm maxP prc hfit hn hlen hmax h
 
 /-- … in particular after a successful parameter search with a predictor order below 64 (the encoder's
-fixed orders are at most 4, its LPC orders at most 32): every partition then holds at least 64 values, more
+fixed orders are at most 4, its LPC orders at most 24): every partition then holds at least 64 values, more
 than the predictor order. For `warm ≥ 64` the search can return `n >> order = warm` (e.g. `n = warm = 64`,
 partition order 0), which the strict reader rejects; the encoder never calls it that way. -/
 theorem C01_residual_search (errors : List Int) (warm maxP : Nat) (prc : PrcParameter)
